@@ -32,23 +32,16 @@ Theorem C08_merge_parts_sent : forall S serve diff has_sub patch fns orig (s0 : 
 Proof. exact po_merges_sent. Qed.
 Print Assumptions C08_merge_parts_sent.
 
-(* ... the plan covers every key of the patch — under a guard ... *)
-Theorem C08_everything_sent_partial : forall has_sub patch bp sp k v,
+(* ... and the plan covers every key of the patch: the key `status` (incl. `status: None`, which removes the status —
+   finding F801, repaired by kopf commit 0a8dc55) goes to /status iff there is the subresource, every other key to the
+   main URL.  Regression examples with the old witness: Proofs/PatchObj.v po_status_null_split, po_ex_status_null_plan,
+   po_ex_status_null_scripted, po_ex_status_null_removed. *)
+Theorem C08_everything_sent : forall has_sub patch bp sp k v,
   po_split has_sub patch = (bp, sp) -> lookup k patch = Some v ->
-  (has_sub = true -> k = "status" -> v <> JNull) ->
   (if has_sub && String.eqb k "status" then sp = Some (JObj [("status", v)]) /\ lookup k bp = None
    else lookup k bp = Some v).
 Proof. exact po_split_cover. Qed.
-Print Assumptions C08_everything_sent_partial.
-
-(* ... and the unguarded statement is false of the faithful model (finding F801): `status: None` with a status
-   subresource is popped from the body patch and sent to no URL at all *)
-Theorem C08_everything_sent_refuted :
-  exists patch bp sp, po_split true patch = (bp, sp) /\ lookup "status" patch = Some JNull /\
-                      sp = None /\ lookup "status" bp = None /\
-                      (forall S serve diff orig (s0 : S), r_log (patch_obj S serve diff true patch [] orig s0) = []).
-Proof. exact po_split_cover_refuted. Qed.
-Print Assumptions C08_everything_sent_refuted.
+Print Assumptions C08_everything_sent.
 
 (* with an RFC 7386 / RFC 6902 server, no status subresource and no foreign write: afterwards the object is the
    merge-patch applied, then the transformations applied (each followed by the server's own post-processing) *)
